@@ -54,40 +54,67 @@ func ruleProposalDominators(c *Ctx) {
 	if fd := c.P.Func(cnsPkg, "service", "getVerifiedTx"); fd != nil {
 		f := c.P.NewFuncCFG(fd)
 		const symPolicy = "pkg/consensus.(Ledger).ApplyPolicyToTxSet"
-		pol := blocksOf(f.CallSites(symPolicy))
-		srcs := f.CallSites("pkg/core/mempool.(*Pool).GetVerifiedTransactions", "pkg/core/mempool.(*Pool).TryGetValue")
-		emptyEdge := func(b *cfg.Block) int { // index of the successor taken when the tested set is empty, -1 if b is no emptiness test
-			be, ok := ast.Unparen(f.Cond(b)).(*ast.BinaryExpr)
-			if f.Cond(b) == nil || !ok || !isZeroConst(f.Info, be.Y) {
+		// leak: a return reachable from `from` without passing a policy site, the empty-set edge of `len(x) > 0` excepted;
+		// a call of a module helper that itself has no leak from its entry counts as a policy site (depth 1)
+		var leakIn func(g *FuncCFG, from []*cfg.Block, depth int) *cfg.Block
+		leakIn = func(g *FuncCFG, from []*cfg.Block, depth int) *cfg.Block {
+			pol := blocksOf(g.CallSites(symPolicy))
+			if depth == 0 {
+				for _, b := range g.G.Blocks {
+					if !b.Live {
+						continue
+					}
+					for _, n := range b.Nodes {
+						inspectNoLit(n, func(x ast.Node) bool {
+							if call, ok := x.(*ast.CallExpr); ok {
+								if hd := staticCalleeDecl(c.P, g.Info, call); hd != nil && hd.Decl.Body != nil && hd.Obj != fd.Obj {
+									h := c.P.NewFuncCFG(hd)
+									if len(h.CallSites(symPolicy)) > 0 && leakIn(h, h.Entry(), 1) == nil {
+										pol[b] = true
+									}
+								}
+							}
+							return true
+						})
+					}
+				}
+			}
+			emptyEdge := func(b *cfg.Block) int { // index of the successor taken when the tested set is empty, -1 if b is no emptiness test
+				if g.Cond(b) == nil {
+					return -1
+				}
+				be, ok := ast.Unparen(g.Cond(b)).(*ast.BinaryExpr)
+				if !ok || !isZeroConst(g.Info, be.Y) {
+					return -1
+				}
+				call, ok := ast.Unparen(be.X).(*ast.CallExpr)
+				if !ok || g.calleeSym(call) != "builtin.len" {
+					return -1
+				}
+				switch be.Op {
+				case token.GTR, token.NEQ:
+					return 1
+				case token.EQL:
+					return 0
+				}
 				return -1
 			}
-			call, ok := ast.Unparen(be.X).(*ast.CallExpr)
-			if !ok || f.calleeSym(call) != "builtin.len" {
-				return -1
+			rets := blocksOf(g.Returns())
+			start := map[*cfg.Block]bool{}
+			seen := map[*cfg.Block]bool{}
+			var stack []*cfg.Block
+			for _, b := range from {
+				start[b], seen[b] = true, true
+				stack = append(stack, b)
 			}
-			switch be.Op {
-			case token.GTR, token.NEQ:
-				return 1
-			case token.EQL:
-				return 0
-			}
-			return -1
-		}
-		rets := blocksOf(f.Returns())
-		for i, s := range srcs {
-			key := fmt.Sprintf("getVerifiedTx.policy#%d", i+1)
-			seen := map[*cfg.Block]bool{s.blk: true}
-			stack := []*cfg.Block{s.blk}
-			var leak *cfg.Block
-			for len(stack) > 0 && leak == nil {
+			for len(stack) > 0 {
 				b := stack[len(stack)-1]
 				stack = stack[:len(stack)-1]
-				if b != s.blk && pol[b] {
+				if pol[b] && (!start[b] || depth > 0) {
 					continue
 				}
 				if rets[b] {
-					leak = b
-					break
+					return b
 				}
 				skip := emptyEdge(b)
 				for j, nx := range b.Succs {
@@ -98,6 +125,12 @@ func ruleProposalDominators(c *Ctx) {
 					stack = append(stack, nx)
 				}
 			}
+			return nil
+		}
+		srcs := f.CallSites("pkg/core/mempool.(*Pool).GetVerifiedTransactions", "pkg/core/mempool.(*Pool).TryGetValue")
+		for i, s := range srcs {
+			key := fmt.Sprintf("getVerifiedTx.policy#%d", i+1)
+			leak := leakIn(f, []*cfg.Block{s.blk}, 0)
 			if leak == nil {
 				c.OK(key, c.P.Pos(s.call.Pos()), "transactions taken from the pool reach dBFT only through ApplyPolicyToTxSet (or as an empty set)")
 			} else {
